@@ -273,6 +273,9 @@ func runStatic(p c06Params, env *runner.Env, res *runner.Result, label string) {
 	r := rng.New(p.Seed)
 	ctx := context.Background()
 	b := bucket.New()
+	// the host's local time zone is not UTC (names and metadata are UTC whatever the zone; process-global, one case
+	// at a time per process)
+	time.Local = time.FixedZone("VERIF", rng.Pick(r, 0, 2*3600, -7*3600, 5*3600+1800, 13*3600))
 	// instance names as an operator may configure them: the name in file name and metadata is the sanitised one
 	instRaw := rng.Pick(r, "a", "a", "ns1.example.com", "dc1__ns1", "ns1_", "pod_auth__0", "a b", "x__", "_")
 	x, err := inst.New(env.Dir("c06s"), b, "db", instRaw, inst.Opt{Native: p.Native, MapSize: 2 << 30})
@@ -406,9 +409,74 @@ func runStatic(p c06Params, env *runner.Env, res *runner.Result, label string) {
 		res.Count("entries_compared", int64(countEntries(exp)))
 		res.Count("blob_bytes", int64(len(data)))
 	}
+	// shutdown in the middle of a dump: the context reports cancellation from its n-th inspection on (every place
+	// where SendOnce looks at the context is a position); the storage ignores the context as the fs and memory
+	// back ends do. Whatever ends up in the bucket must still be a complete image - or nothing is uploaded.
+	for n := 1; n <= p.NDBI+8; n++ {
+		_, _ = lmdbx.Update(x.Env, func(txn *lmdb.Txn) error { // a local change, so that a dump is due in both modes
+			if p.Native {
+				return inst.NativePut(txn, "d0", []byte(fmt.Sprintf("zz-cancel-%03d", n)), uint64(time.Now().UnixNano()), false, []byte("v"))
+			}
+			return lmdbx.Put(txn, "d0", 0, []byte(fmt.Sprintf("zz-cancel-%03d", n)), []byte("v"))
+		})
+		before := map[string]bool{}
+		for _, nm := range b.Names() {
+			before[nm] = true
+		}
+		cc := &countCtx{cancelAt: int32(n), done: make(chan struct{})}
+		_, serr := x.S.SendOnce(cc, x.Env)
+		wit := map[string]any{"params": p, "cancel_at_inspection": n, "sendonce_error": fmt.Sprint(serr), "inspections": atomic.LoadInt32(&cc.n)}
+		for _, nm := range b.Names() {
+			if before[nm] {
+				continue
+			}
+			data, _ := b.Get(nm)
+			sn := checkWire(res, data, wit)
+			if sn == nil {
+				continue
+			}
+			dump, _, _ := lmdbx.DumpEnv(x.Env)
+			exp, err := expectedFromDump(dump, p.Native)
+			if err == nil && !compareSnap(res, sn, exp, wit, fmt.Sprintf("snapshot uploaded although the context was cancelled at inspection %d", n)) {
+				res.Count("partial_snapshots_after_cancel", 1)
+			}
+			res.Count("uploads_despite_cancel", 1)
+		}
+		res.Count("cancel_positions", 1)
+		if atomic.LoadInt32(&cc.n) < int32(n) {
+			break // SendOnce inspects the context fewer than n times: all positions covered
+		}
+	}
 	res.NonTrivial = p.NDBI >= 2 && markersOrEmpty > 0
 	res.Sample = map[string]any{"case": label, "params": p, "markers_or_empty": markersOrEmpty}
 }
+
+// countCtx is a context that is cancelled from its n-th inspection (Done or Err call) on.
+type countCtx struct {
+	cancelAt int32
+	n        int32
+	once     sync.Once
+	done     chan struct{}
+}
+
+func (c *countCtx) tick() bool {
+	if atomic.AddInt32(&c.n, 1) >= c.cancelAt {
+		c.once.Do(func() { close(c.done) })
+		return true
+	}
+	return false
+}
+func (c *countCtx) Deadline() (time.Time, bool) { return time.Time{}, false }
+func (c *countCtx) Done() <-chan struct{}       { c.tick(); return c.done }
+func (c *countCtx) Err() error {
+	select {
+	case <-c.done:
+		return context.Canceled
+	default:
+		return nil
+	}
+}
+func (c *countCtx) Value(any) any { return nil }
 
 func countEntries(exp map[string]*expDBI) int {
 	n := 0
